@@ -15,8 +15,8 @@ import (
 
 	"github.com/anishathalye/porcupine"
 	"github.com/sheerbytes/sheerbytes/internal/session"
-	vrt "github.com/sheerbytes/sheerbytes/internal/verif/vrt"
 	"github.com/sheerbytes/sheerbytes/internal/verif/vlib"
+	vrt "github.com/sheerbytes/sheerbytes/internal/verif/vrt"
 )
 
 var res *vlib.Result
